@@ -119,6 +119,8 @@ type frow struct {
 }
 
 type allocx struct {
+	Quiet     string  `json:"quiet"`
+	Log       string  `json:"log"`
 	AllocFree bool    `json:"allocFree"`
 	HostSet   bool    `json:"hostSet"`
 	O         outcome `json:"o"`
@@ -142,6 +144,7 @@ type vector struct {
 	Wf     bool            `json:"wf"`
 	Ranges []prange        `json:"ranges"`
 	Status string          `json:"status"`
+	Cfg    string          `json:"cfg"`
 	X      *allocx         `json:"x"`
 	C      json.RawMessage `json:"c"`
 	view   *vshape
